@@ -14,45 +14,43 @@ open Dnp.H5
 /-- never replaces an existing file unless overwrite is requested, and says so by raising -/
 theorem refuse (t : Tree) (w : Workspace) : save (.holds t) w false = { disk := .holds t, raised := true } := rfl
 
+/-- … whatever the existing file is (a saved workspace, a text file, an empty stub, a truncated file) -/
+theorem refuse_any (dest : Disk) (w : Workspace) (h : dest ≠ .absent) : save dest w false = { disk := dest, raised := true } := by
+  unfold save
+  cases dest with
+  | absent => exact absurd rfl h
+  | holds t => rfl
+  | other n => rfl
+
 /-- whatever makes the save raise, wherever the unstorable value occurs, the destination afterwards
     is exactly what it was before (absent, or the complete previous content) -/
 theorem fault_safe (dest : Disk) (w : Workspace) (ow : Bool) (h : (save dest w ow).raised = true) :
     (save dest w ow).disk = dest := by
   unfold save at *
-  cases dest with
-  | absent =>
+  split
+  · rfl
+  · rename_i hc
+    rw [if_neg hc] at h
     cases hw : writeAll w with
-    | none => simp [hw]
+    | none => simp
     | some t => simp [hw] at h
-  | holds t0 =>
-    cases ow with
-    | false => rfl
-    | true =>
-      cases hw : writeAll w with
-      | none => simp [hw]
-      | some t => simp [hw] at h
 
 /-- a successful save holds exactly the tree of the whole workspace (which loads back by C07) -/
 theorem success (dest : Disk) (w : Workspace) (ow : Bool) (h : (save dest w ow).raised = false) :
     ∃ t, writeAll w = some t ∧ (save dest w ow).disk = .holds t := by
   unfold save at *
-  cases dest with
-  | absent =>
+  split
+  · rename_i hc; rw [if_pos hc] at h; simp at h
+  · rename_i hc
+    rw [if_neg hc] at h
     cases hw : writeAll w with
     | none => simp [hw] at h
-    | some t => exact ⟨t, rfl, by simp [hw]⟩
-  | holds t0 =>
-    cases ow with
-    | false => simp at h
-    | true =>
-      cases hw : writeAll w with
-      | none => simp [hw] at h
-      | some t => exact ⟨t, rfl, by simp [hw]⟩
+    | some t => exact ⟨t, rfl, by simp⟩
 
 /-- every fault position: a value that cannot be stored anywhere in the workspace makes the save raise -/
 theorem fault_raises (dest : Disk) (w : Workspace) (hw : writeAll w = none) : (save dest w true).raised = true := by
   unfold save
-  cases dest <;> simp [hw]
+  simp [hw]
 
 /-- the pinned `save_h5` (truncate, then write): a workspace whose SECOND entry holds an unstorable
     value leaves a file that loads without error but lacks that entry, and the previous content is gone -/
@@ -64,7 +62,7 @@ theorem pinned_fault_unsafe :
     let w : Workspace := [("a", .data good), ("b", .data bad)]
     (savePinned (.holds prev) w true).raised = true ∧
     (savePinned (.holds prev) w true).disk ≠ .holds prev ∧
-    (match (savePinned (.holds prev) w true).disk with | .holds t => t.length | .absent => 0) = 1 ∧
+    (match (savePinned (.holds prev) w true).disk with | .holds t => t.length | _ => 0) = 1 ∧
     (save (.holds prev) w true).disk = .holds prev := by decide +kernel
 
 end Dnp.C17
